@@ -696,6 +696,8 @@ class StatT:
                 self.use(l.id); return 'true'
             if isinstance(o, ast.Eq) and ast.unparse(l) == 'iters':
                 return '(iters == %s)' % self.use(ast.unparse(r))
+            if isinstance(o, ast.Eq) and isinstance(l, ast.Name) and isinstance(r, ast.Constant) and isinstance(r.value, (int, float)):
+                return '(decide (%s = %s))' % (self.sc(l), self.sc(r))          # `pcost == 0.0`
             sym = {ast.Lt: '<', ast.LtE: '≤', ast.Gt: '>', ast.GtE: '≥'}.get(type(o))
             if sym:
                 if isinstance(l, ast.Name) and l.id in self.optional:
@@ -738,6 +740,10 @@ class StatT:
                 a, v = c.args[0], ast.unparse(c.args[1])
                 self.lines.append('let %s := %s • %s' % (v, self.sc(a), self.use(v))); self.define(v); return True
             return False
+        if isinstance(st, ast.Assign) and len(st.targets) == 1 and isinstance(st.targets[0], ast.Name) and isinstance(st.value, ast.Call) \
+           and ast.unparse(st.value.func) in ('xnewcopy', 'ynewcopy') and len(st.value.args) == 1:
+            v = st.targets[0].id
+            self.lines.append('let %s := %s' % (v, self.use(ast.unparse(st.value.args[0])))); self.define(v); return True
         if isinstance(st, ast.Assign) and len(st.targets) == 1:
             t = st.targets[0]
             if isinstance(t, ast.Tuple) and isinstance(st.value, ast.Tuple):
@@ -766,7 +772,7 @@ class StatT:
             self.lines.append('let %s : Option K := %s' % r); self.define(r[0]); self.optional.add(r[0]); return True
         return False
 
-def decision_tree(T, ifnode, epilogue_prefix=()):
+def decision_tree(T, ifnode, epilogue_prefix=(), block=None):
     """the if/elif chain after the statistics -> Lean term of type `Branch`, plus the table of returns"""
     returns = []
     def leaf(body, pre):
@@ -831,6 +837,7 @@ def decision_tree(T, ifnode, epilogue_prefix=()):
         elif not i.orelse: b = 'Branch.continue_'
         else: b = leaf(i.orelse, epilogue_prefix)
         return '(if %s then %s else %s)' % (T.cond(i.test), a, b)
+    if block is not None: return leaf(block, epilogue_prefix), returns          # a statement list ending in `return`s
     return chain(ifnode), returns
 
 def mentions_tol(test, boolnames):
@@ -864,6 +871,59 @@ def gen_decide_solver(mod, name, stats_fields):
     D = StatT(); D.optional = set(T.optional); D.defined = set(); D.boolnames = dict(getattr(T, 'boolnames', {}))
     tree, returns = decision_tree(D, decision)
     return T, stats_lines, D, tree, returns
+
+def gen_shortcut(fn):
+    """coneqp without inequality constraints (`if cdim == 0:`): one KKT solve, then residuals, status and the result dictionary.
+    The statements after the KKT solve are translated like a statistics block; the rest of the block like the returns of the main loop."""
+    blk = [st for st in fn.body if isinstance(st, ast.If) and ast.unparse(st.test) == 'cdim == 0']
+    if len(blk) != 1: raise Untranslatable('coneqp: expected exactly one top-level `if cdim == 0:` block, found %d' % len(blk))
+    body = blk[0].body
+    tries = [k for k, st in enumerate(body) if isinstance(st, ast.Try)]
+    if not tries: raise Untranslatable('coneqp shortcut: the KKT solve (try: f3(x, y, ...)) was not found')
+    solve = body[tries[-1]]
+    call = [x for x in ast.walk(solve) if isinstance(x, ast.Call) and ast.unparse(x.func) == 'f3']
+    if len(call) != 1 or [ast.unparse(a) for a in call[0].args[:2]] != ['x', 'y']:
+        raise Untranslatable('coneqp shortcut: the KKT solve is not f3(x, y, ...)')
+    T = StatT(); tail = None
+    for k in range(tries[-1] + 1, len(body)):
+        st = body[k]
+        sets_status = isinstance(st, ast.If) and any(isinstance(x, ast.Assign) and ast.unparse(x.targets[0]) == 'status' for x in ast.walk(st))
+        if sets_status or isinstance(st, ast.Return) or (isinstance(st, ast.If) and any(isinstance(x, ast.Return) for x in ast.walk(st))):
+            tail = body[k:]; break
+        if not T.stmt(st): raise Untranslatable('coneqp shortcut: statement after the KKT solve: %s' % ast.unparse(st)[:100])
+    if tail is None: raise Untranslatable('coneqp shortcut: no return')
+    fields = [f for f in ['pcost', 'pres', 'dres', 'relgap'] if f in T.defined]
+    if fields[:3] != ['pcost', 'pres', 'dres']: raise Untranslatable('coneqp shortcut: pcost / pres / dres are not computed after the KKT solve')
+    D = StatT(); D.optional = set(T.optional); D.boolnames = dict(getattr(T, 'boolnames', {}))
+    tree, returns = decision_tree(D, None, block=tail)
+    vec_free = [v for v in T.free if any(v in sp for sp in SPACE.values())]
+    sc_free = [v for v in T.free if v not in vec_free]
+    out = ['namespace shortcut', '/-- values read after the single KKT solve of the problem without inequalities: its solution `x`, `y`, the data, the normalisers -/',
+           'structure In (K X Y Z : Type) where']
+    for v in vec_free: out.append('  %s : %s' % (v, space_of(v)))
+    for v in sc_free: out.append('  %s : K' % v)
+    out.append('structure Stats (K : Type) where')
+    for f in fields: out.append('  %s : %s' % (f, 'Option K' if f in T.optional else 'K'))
+    out.append('/-- the statements between the KKT solve and the status decision, statement by statement -/')
+    out.append('def stats (E : Env K X Y Z) (i : In K X Y Z) : Stats K :=')
+    for v in vec_free + sc_free: out.append('  let %s := i.%s' % (v, v))
+    for l in T.lines: out.append('  ' + l)
+    out.append('  { ' + ', '.join('%s := %s' % (f, f) for f in fields) + ' }')
+    dfree = sorted(D.free)
+    out.append('inductive Branch where | ret (k : Nat) | continue_')
+    out.append('deriving DecidableEq, Repr')
+    out.append('/-- which `return` of the block is taken -/')
+    out.append('def branch %s : Branch :=' % ' '.join('(%s : %s)' % (v, 'Option K' if v in D.optional else 'K') for v in dfree))
+    out.append('  ' + tree)
+    out.append('def branchParams : List String := ' + llist(map(lstr, dfree)))
+    rows = []
+    for r in returns:
+        rows.append('  ' + llist('(%s, %s)' % (lstr(a), lstr(b)) for a, b in r['fields'].items()))
+        if r['epilogue']: raise Untranslatable('coneqp shortcut: x or y is rescaled before the return')
+    out.append('/-- for each `return`: the result dictionary (key, source expression) -/')
+    out.append('def returns : List (List (String × String)) := [\n' + ',\n'.join(rows) + ' ]')
+    out.append('end shortcut')
+    return out
 
 def gen_decide():
     out = ['/- GENERATED by tools/translate/py2lean.py (gen_decide) from /repo/src/python/coneprog.py. Do not edit. -/',
@@ -935,6 +995,7 @@ def gen_decide():
             for l in lines: out.append('  ' + l)
             out.append('  (x, y, s, z)')
             out.append('def epilogue%dParams : List String := %s' % (k, llist(map(lstr, scal_free))))
+        if name == 'coneqp': out += gen_shortcut(fn_)
         out.append('end')
         out.append('end %s\n' % name)
     out.append('end CvxVerif.Gen.Decide\n')
